@@ -112,6 +112,123 @@ type c08Stmt struct {
 	Elems  []c08Lit
 	Silent bool // written <% for … : its body has no output
 	Body   []*c08Stmt
+	// for, iterable built from enclosing variables when the loop is ENTERED (a loop node entered more than
+	// once in one render must evaluate its iterable again each time)
+	Dyn  string  // "" (Src/Elems, constant) | arr: [EX…] | hash: {"n": EX[0]} or {} | range: range(EX[0], EX[1]), N elements
+	EX   []c08EX // element expressions (arr, hash) / bounds (range)
+	Cnt  int     // range: number of elements
+	Via  string  // arr: the literal is bound to this variable by a let just before the loop
+	Fn   string  // != "": the loop is the body of `let Fn = fn(P) { return for … }`, entered by the calls Fn(Args[i])
+	P    string  // the function's parameter: the only enclosing variable its loop may mention
+	Args []c08EX // one call per argument, emitted right after the definition
+}
+
+// c08EX is an element of a literal iterable, a range bound or a call argument: a constant, an enclosing
+// variable, or an enclosing int variable +/* a constant.
+type c08EX struct {
+	Var string // "" = the constant C
+	Op  string // "" | + | *
+	C   c08Lit
+}
+
+func (e c08EX) Src() string {
+	if e.Var == "" {
+		return e.C.Src()
+	}
+	if e.Op == "" {
+		return e.Var
+	}
+	return e.Var + " " + e.Op + " " + e.C.Src()
+}
+
+// Val: the value, when the generator knows the variable's.
+func (e c08EX) Val(env map[string]c08Lit) (c08Lit, bool) {
+	if e.Var == "" {
+		return e.C, true
+	}
+	v, ok := env[e.Var]
+	if !ok {
+		return c08Lit{}, false
+	}
+	switch e.Op {
+	case "":
+		return v, true
+	case "+":
+		if !v.Str {
+			return c08Lit{I: v.I + e.C.I}, true
+		}
+	case "*":
+		if !v.Str {
+			return c08Lit{I: v.I * e.C.I}, true
+		}
+	}
+	panic("c08: arithmetic on a string variable " + e.Src())
+}
+
+func c08EXSrcs(xs []c08EX) string {
+	ss := make([]string, len(xs))
+	for i, x := range xs {
+		ss[i] = x.Src()
+	}
+	return strings.Join(ss, ", ")
+}
+
+// IterSrc: the expression after "in".
+func (s *c08Stmt) IterSrc() string {
+	switch s.Dyn {
+	case "arr":
+		if s.Via != "" {
+			return s.Via
+		}
+		return "[" + c08EXSrcs(s.EX) + "]"
+	case "hash":
+		if len(s.EX) == 0 {
+			return "{}"
+		}
+		return `{"n": ` + s.EX[0].Src() + "}"
+	case "range":
+		return "range(" + c08EXSrcs(s.EX[:2]) + ")"
+	}
+	return s.Src
+}
+
+// c08El is one element of an inner loop as the unroller binds it: sources for the lets, and the values
+// when the generator knows them.
+type c08El struct {
+	KSrc, VSrc string
+	K, V       c08Lit
+	VOk        bool
+}
+
+// Els: the elements the loop visits when entered with the enclosing variables as in env.
+func (s *c08Stmt) Els(env map[string]c08Lit) []c08El {
+	out := []c08El{}
+	switch s.Dyn {
+	case "arr":
+		for j, x := range s.EX {
+			v, ok := x.Val(env)
+			out = append(out, c08El{KSrc: strconv.Itoa(j), K: c08Lit{I: j}, VSrc: x.Src(), V: v, VOk: ok})
+		}
+	case "hash":
+		if len(s.EX) > 0 { // one entry at most: the order of a bigger hash literal is not the generator's to know
+			v, ok := s.EX[0].Val(env)
+			out = append(out, c08El{KSrc: `"n"`, K: c08Lit{Str: true, S: "n"}, VSrc: s.EX[0].Src(), V: v, VOk: ok})
+		}
+	case "range":
+		lo, ok := s.EX[0].Val(env)
+		if !ok || lo.Str {
+			panic("c08: range bound not known: " + s.EX[0].Src())
+		}
+		for j := 0; j < s.Cnt; j++ {
+			v := c08Lit{I: lo.I + j}
+			out = append(out, c08El{KSrc: strconv.Itoa(j), K: c08Lit{I: j}, VSrc: v.Src(), V: v, VOk: true})
+		}
+	default:
+		for j, e := range s.Elems {
+			out = append(out, c08El{KSrc: strconv.Itoa(j), K: c08Lit{I: j}, VSrc: e.Src(), V: e, VOk: true})
+		}
+	}
+	return out
 }
 
 func c08Emits(ss []*c08Stmt) bool {
@@ -183,11 +300,28 @@ func c08Segs(ss []*c08Stmt, out []c08Seg) []c08Seg {
 			}
 			out = append(out, c08Seg{'c', "}"})
 		case "for":
+			via := func() {
+				if s.Via != "" {
+					out = append(out, c08Seg{'c', "let " + s.Via + " = [" + c08EXSrcs(s.EX) + "]"})
+				}
+			}
+			if s.Fn != "" {
+				out = append(out, c08Seg{'c', "let " + s.Fn + " = fn(" + s.P + ") {"})
+				via()
+				out = append(out, c08Seg{'c', "return " + c08ForHead(s.K, s.V, s.IterSrc())})
+				out = c08Segs(s.Body, out)
+				out = append(out, c08Seg{'c', "}"}, c08Seg{'c', "}"})
+				for _, a := range s.Args {
+					out = append(out, c08Seg{'e', s.Fn + "(" + a.Src() + ")"})
+				}
+				continue
+			}
+			via()
 			t := byte('o')
 			if s.Silent {
 				t = 'c'
 			}
-			out = append(out, c08Seg{t, c08ForHead(s.K, s.V, s.Src)})
+			out = append(out, c08Seg{t, c08ForHead(s.K, s.V, s.IterSrc())})
 			out = c08Segs(s.Body, out)
 			out = append(out, c08Seg{'c', "}"})
 		}
@@ -326,19 +460,36 @@ func c08Unroll(ss []*c08Stmt, env map[string]c08Lit) (string, int) {
 			if s.Silent {
 				continue // no output, own scope, its control statements end only itself
 			}
-			for j, e := range s.Elems {
-				inner := c08CopyEnv(env)
-				if s.K != "" {
-					b.WriteString("<% let " + s.K + " = " + strconv.Itoa(j) + " %>")
-					inner[s.K] = c08Lit{I: j}
+			// one entry of the loop: its elements are what the iterable evaluates to NOW
+			enter := func(env map[string]c08Lit) {
+				for _, e := range s.Els(env) {
+					inner := c08CopyEnv(env)
+					if s.K != "" {
+						b.WriteString("<% let " + s.K + " = " + e.KSrc + " %>")
+						inner[s.K] = e.K
+					}
+					b.WriteString("<% let " + s.V + " = " + e.VSrc + " %>")
+					if e.VOk {
+						inner[s.V] = e.V
+					}
+					t, f := c08Unroll(s.Body, inner)
+					b.WriteString(t)
+					if f == c08Break {
+						break
+					}
 				}
-				b.WriteString("<% let " + s.V + " = " + e.Src() + " %>")
-				inner[s.V] = e
-				t, f := c08Unroll(s.Body, inner)
-				b.WriteString(t)
-				if f == c08Break {
-					break
+			}
+			if s.Fn == "" {
+				enter(env)
+				continue
+			}
+			for _, a := range s.Args { // one entry per call, the parameter bound to the argument
+				b.WriteString("<% let " + s.P + " = " + a.Src() + " %>")
+				fenv := map[string]c08Lit{}
+				if v, ok := a.Val(env); ok {
+					fenv[s.P] = v
 				}
+				enter(fenv)
 			}
 		}
 	}
@@ -349,6 +500,7 @@ func c08Unroll(ss []*c08Stmt, env map[string]c08Lit) (string, int) {
 
 type c08Feat struct {
 	brk, cont, ret, nest, ctlAfterLoop, ctlAfterFn, ctlInInner, els bool
+	dyn, fnloop                                                     bool
 }
 
 func c08Scan(ss []*c08Stmt, f *c08Feat, depth int, seenLoop, seenFn bool) (bool, bool) {
@@ -386,8 +538,19 @@ func c08Scan(ss []*c08Stmt, f *c08Feat, depth int, seenLoop, seenFn bool) (bool,
 			seenLoop, seenFn = l || l2, n || n2
 		case "for":
 			f.nest = true
+			if s.Fn != "" {
+				f.fnloop = true
+			}
+			for _, x := range s.EX {
+				if s.Dyn != "" && x.Var != "" {
+					f.dyn = true
+				}
+			}
 			c08Scan(s.Body, f, depth+1, false, false)
 			seenLoop = true
+			if s.Fn != "" {
+				seenFn = true
+			}
 		}
 	}
 	return seenLoop, seenFn
@@ -410,6 +573,10 @@ func c08Shape(body []*c08Stmt, style, tail string) string {
 		d = "break"
 	case f.cont:
 		d = "continue"
+	case f.fnloop:
+		d = "loop-in-fn"
+	case f.dyn:
+		d = "nested-dyn"
 	case f.nest:
 		d = "nested"
 	}
@@ -434,10 +601,11 @@ type c08Build struct {
 	Merge uint64 // 0: merge every adjacent pair of code segments; else seed of the per-junction choice
 	Pre   int    // 0 none, 1 text, 2 a let tag
 	Tail  int    // 0 none, 1 text, 2 <%= 7 %>, 3 a statement after the closing brace in the same tag
+	Again bool   // the case also executes the parsed template twice (see c08Eval step 3)
 }
 
 func c08Assemble(bd *c08Build, it *c08Iterable) *c08Case {
-	cs := &c08Case{It: bd.It, K: bd.K, V: bd.V}
+	cs := &c08Case{It: bd.It, K: bd.K, V: bd.V, Again: bd.Again && (it.Class == "ordered" || it.Class == "map")}
 	mr := NewRng(bd.Merge)
 	merge := func() bool { return bd.Merge == 0 || mr.Chance(65) }
 	segs := []c08Seg{{'o', c08ForHead(bd.K, bd.V, it.Expr)}}
@@ -491,14 +659,17 @@ func c08Assemble(bd *c08Build, it *c08Iterable) *c08Case {
 // ---- part A: the grid
 
 var c08OrderedKinds = []string{"ints", "strs", "anys", "bools", "f64s", "i64s", "strz", "htmls", "arr", "arrs", "parr", "pints", "pstrs",
-	"lit", "lits", "range", "until", "iter", "iteri", "fiter", "viter"}
+	"lit", "lits", "range", "until", "iter", "iteri", "fiter", "viter", "between", "piter"}
 var c08MapKinds = []string{"msi", "mis", "msa", "pmsi", "hash"}
+
+// more element kinds, random part only: pointer elements, typed nil pointers among them, are elements like any other
+var c08MoreKinds = []string{"ptrs", "anyiter", "msp"}
 var c08NilKinds = []string{"nil-lit", "nil-fn", "nil-miss", "nilslice", "nilmap", "nilptr"}
 var c08NonIter = []string{"x-int", "x-intlit", "x-str", "x-strlit", "x-bool", "x-float", "x-struct", "x-pstruct", "x-func", "x-stringer"}
 
 func c08Name(kind string, n int) string {
-	if kind == "range" {
-		return fmt.Sprintf("range:%d:%d", n, 3)
+	if kind == "range" || kind == "between" {
+		return fmt.Sprintf("%s:%d:%d", kind, n, 3)
 	}
 	return fmt.Sprintf("%s:%d", kind, n)
 }
@@ -537,6 +708,28 @@ func c08Grid(cfg Config, rep *Report) {
 		return &c08Stmt{T: "for", K: "a", V: "b", Src: "[1, 2]", Elems: []c08Lit{{I: 1}, {I: 2}},
 			Body: []*c08Stmt{c08T("("), c08E("b"), c08T(")")}}
 	}
+	// an inner loop whose iterable is built from the outer loop's variables: entered once per outer
+	// iteration, it must visit what the iterable evaluates to THEN
+	innerDyn := func(it *c08Iterable, n int) *c08Stmt {
+		st := &c08Stmt{T: "for", K: "a", V: "b", Body: []*c08Stmt{c08T("("), c08E("a"), c08T("="), c08E("b"), c08T(")")}}
+		switch {
+		case n%3 == 1:
+			st.Dyn, st.EX = "hash", []c08EX{{Var: "v"}}
+		case n%3 == 2 && it.KKind == "int" && it.Class == "ordered":
+			st.Dyn, st.Cnt, st.EX = "range", 2, []c08EX{{Var: "k"}, {Var: "k", Op: "+", C: c08Lit{I: 1}}}
+		default:
+			st.Dyn, st.EX = "arr", []c08EX{{Var: "k"}, {C: c08Lit{I: 7}}, {Var: "v"}}
+			if n%2 == 1 {
+				st.Via = "t"
+			}
+		}
+		return st
+	}
+	// a loop in a function called twice per outer iteration: entered again and again with another argument
+	innerFn := func() *c08Stmt {
+		return &c08Stmt{T: "for", V: "b", Dyn: "arr", EX: []c08EX{{Var: "p"}, {C: c08Lit{I: 7}}}, Fn: "g", P: "p",
+			Args: []c08EX{{Var: "k"}, {Var: "v"}}, Body: []*c08Stmt{c08T("<"), c08E("b"), c08T(">")}}
+	}
 	run := func(bd *c08Build, it *c08Iterable) {
 		if rep.Full() {
 			return
@@ -565,6 +758,8 @@ func c08Grid(cfg Config, rep *Report) {
 				{c08T("["), c08E("k"), c08T(":"), c08E("v"), c08T("]")},
 				{c08E("v"), inner(false), c08T(";")},
 				{c08E("k"), inner(true), &c08Stmt{T: "fn", N: "g"}, c08T(",")},
+				{c08E("k"), innerDyn(it, n), c08T(";")},
+				{c08T("."), innerFn(), c08T(",")},
 			}
 			for bi, base := range bases {
 				for p := 0; p <= len(base); p++ {
@@ -573,10 +768,13 @@ func c08Grid(cfg Config, rep *Report) {
 							if ctl == "return" && (ci > 1 || bi > 0) {
 								continue
 							}
+							if bi >= 3 && ci > 1 && ci < n {
+								continue // re-entered inner loops: bare, at the first key, at the last key, on the value
+							}
 							cnt++
 							style := []string{"tags", "merged"}[cnt%2]
 							bd := &c08Build{It: name, K: "k", V: "v", Body: c08Insert(base, p, c08CtlStmt(ctl, c, cnt%3 == 0)),
-								Style: style, Sep: []string{"\n", " "}[(cnt/2)%2], Tail: cnt % 4, Pre: cnt % 3}
+								Style: style, Sep: []string{"\n", " "}[(cnt/2)%2], Tail: cnt % 4, Pre: cnt % 3, Again: cnt%5 == 0}
 							run(bd, it)
 						}
 					}
@@ -751,64 +949,185 @@ func (g *c08Gen) ifBody(sc *c08Scope, depth int, quiet bool) []*c08Stmt {
 	return g.block(sc.clone(), depth+1, 3, quiet)
 }
 
+// exprs: n expressions over the variables of sc, for the elements of a literal iterable or the arguments of
+// calls. Mostly of ONE type (int or string) and over variables whose values the generator knows, so that the
+// variable they are bound to can be compared in conditions (cands: literals near the values it will take);
+// sometimes over any variable in scope (a value of unknown type: emitted, never compared).
+func (g *c08Gen) exprs(sc *c08Scope, n int) (xs []c08EX, cands []c08Lit, known bool) {
+	r := g.r
+	if len(sc.vars) > 0 && r.Chance(20) {
+		for i := 0; i < n; i++ {
+			if r.Chance(25) {
+				xs = append(xs, c08EX{C: c08Lit{I: r.Range(1, 9)}})
+			} else {
+				xs = append(xs, c08EX{Var: Pick(r, sc.vars)})
+			}
+		}
+		return xs, nil, false
+	}
+	ints, strs := []string{}, []string{}
+	for _, v := range sc.knownNames() {
+		if sc.known[v][0].Str {
+			strs = append(strs, v)
+		} else {
+			ints = append(ints, v)
+		}
+	}
+	str := len(strs) > 0 && (len(ints) == 0 || r.Chance(35))
+	vars := ints
+	if str {
+		vars = strs
+	}
+	for i := 0; i < n; i++ {
+		if len(vars) == 0 || r.Chance(25) {
+			c := c08Lit{I: r.Range(1, 9)}
+			if str {
+				c = c08Lit{Str: true, S: Pick(r, c08Letters)}
+			}
+			xs = append(xs, c08EX{C: c})
+			cands = append(cands, c)
+			continue
+		}
+		x := c08EX{Var: Pick(r, vars)}
+		if !str && r.Chance(40) {
+			x.Op, x.C = "+", c08Lit{I: r.Range(1, 3)}
+			if r.Chance(40) {
+				x.Op, x.C = "*", c08Lit{I: Pick(r, []int{2, 10})}
+			}
+		}
+		xs = append(xs, x)
+		for _, l := range sc.known[x.Var] {
+			v, _ := x.Val(map[string]c08Lit{x.Var: l})
+			cands = append(cands, v)
+		}
+	}
+	return xs, cands, true
+}
+
 func (g *c08Gen) loop(sc *c08Scope, depth int, quiet bool) *c08Stmt {
 	r := g.r
 	st := &c08Stmt{T: "for", V: g.fresh("b")}
 	if r.Chance(60) {
 		st.K = g.fresh("a")
 	}
-	n := r.Intn(4)
-	switch r.Intn(5) {
-	case 0:
-		st.Src = "ys"
-		for _, x := range []int{1, 2, 3} {
-			st.Elems = append(st.Elems, c08Lit{I: x})
-		}
-	case 1:
-		st.Src = "zs"
-		st.Elems = []c08Lit{{Str: true, S: "p"}, {Str: true, S: "q"}}
-	case 2:
-		a := r.Range(1, 3) // no negative literals: unary minus is not C08's business
-		st.Src = fmt.Sprintf("range(%d, %d)", a, a+n-1)
-		for i := 0; i < n; i++ {
-			st.Elems = append(st.Elems, c08Lit{I: a + i})
-		}
-	case 3:
-		ss := []string{}
-		for i := 0; i < n; i++ {
-			st.Elems = append(st.Elems, c08Lit{Str: true, S: c08Letters[i+3]})
-			ss = append(ss, strconv.Quote(c08Letters[i+3]))
-		}
-		st.Src = "[" + strings.Join(ss, ", ") + "]"
-	default:
-		ss := []string{}
-		for i := 0; i < n; i++ {
-			st.Elems = append(st.Elems, c08Lit{I: 20 + i})
-			ss = append(ss, strconv.Itoa(20+i))
-		}
-		st.Src = "[" + strings.Join(ss, ", ") + "]"
-	}
 	st.Silent = quiet || r.Chance(20)
+	// the loop may live in a function that is called several times: the same loop entered again and again,
+	// with another argument each time
+	if !st.Silent && !g.onetag && r.Chance(18) {
+		st.Fn, st.P = g.fresh("g"), g.fresh("p")
+		args, cands, known := g.exprs(sc, r.Range(1, 2))
+		st.Args = args
+		sc = &c08Scope{vars: []string{st.P}, known: map[string][]c08Lit{}}
+		if known {
+			sc.known[st.P] = cands
+		}
+	}
+	var vcands []c08Lit
+	vknown := true
+	n := r.Intn(4)
+	mode := r.Intn(100)
+	ints := []string{}
+	for _, v := range sc.knownNames() {
+		if !sc.known[v][0].Str {
+			ints = append(ints, v)
+		}
+	}
+	if mode >= 82 && len(ints) == 0 {
+		mode = 50
+	}
+	switch {
+	case mode < 40: // a constant iterable
+		switch r.Intn(5) {
+		case 0:
+			st.Src = "ys"
+			for _, x := range []int{1, 2, 3} {
+				st.Elems = append(st.Elems, c08Lit{I: x})
+			}
+		case 1:
+			st.Src = "zs"
+			st.Elems = []c08Lit{{Str: true, S: "p"}, {Str: true, S: "q"}}
+		case 2:
+			a := r.Range(1, 3) // no negative literals: unary minus is not C08's business
+			st.Src = fmt.Sprintf("range(%d, %d)", a, a+n-1)
+			for i := 0; i < n; i++ {
+				st.Elems = append(st.Elems, c08Lit{I: a + i})
+			}
+		case 3:
+			ss := []string{}
+			for i := 0; i < n; i++ {
+				st.Elems = append(st.Elems, c08Lit{Str: true, S: c08Letters[i+3]})
+				ss = append(ss, strconv.Quote(c08Letters[i+3]))
+			}
+			st.Src = "[" + strings.Join(ss, ", ") + "]"
+		default:
+			ss := []string{}
+			for i := 0; i < n; i++ {
+				st.Elems = append(st.Elems, c08Lit{I: 20 + i})
+				ss = append(ss, strconv.Itoa(20+i))
+			}
+			st.Src = "[" + strings.Join(ss, ", ") + "]"
+		}
+		vcands = st.Elems
+	case mode < 72: // an array literal over the enclosing variables, in place or bound by a let first
+		st.Dyn = "arr"
+		st.EX, vcands, vknown = g.exprs(sc, r.Intn(4))
+		if r.Chance(25) {
+			st.Via = g.fresh("t")
+		}
+	case mode < 82: // a hash literal with at most one entry (no order to know)
+		st.Dyn = "hash"
+		st.EX, vcands, vknown = g.exprs(sc, r.Intn(2))
+		if st.K != "" {
+			sc = sc.clone()
+			sc.known[st.K] = []c08Lit{{Str: true, S: "n"}, {Str: true, S: "m"}}
+		}
+	default: // range(x + c, x + c + n - 1) from an enclosing int variable
+		st.Dyn, st.Cnt = "range", n
+		c := r.Intn(3)
+		if n == 0 && c == 0 {
+			c = 1
+		}
+		v := Pick(r, ints)
+		mk := func(c int) c08EX {
+			if c == 0 {
+				return c08EX{Var: v}
+			}
+			return c08EX{Var: v, Op: "+", C: c08Lit{I: c}}
+		}
+		st.EX = []c08EX{mk(c), mk(c + n - 1)}
+		for _, l := range sc.known[v] {
+			for j := 0; j < n; j++ {
+				vcands = append(vcands, c08Lit{I: l.I + c + j})
+			}
+		}
+	}
 	in := sc.clone()
 	if st.K != "" {
 		in.vars = append(in.vars, st.K)
-		ks := []c08Lit{}
-		for i := range st.Elems {
-			ks = append(ks, c08Lit{I: i})
+		if st.Dyn != "hash" {
+			cnt := len(st.Elems)
+			if st.Dyn == "arr" {
+				cnt = len(st.EX)
+			} else if st.Dyn == "range" {
+				cnt = st.Cnt
+			}
+			ks := []c08Lit{}
+			for i := 0; i <= cnt; i++ {
+				ks = append(ks, c08Lit{I: i})
+			}
+			in.known[st.K] = ks
 		}
-		ks = append(ks, c08Lit{I: len(st.Elems)})
-		in.known[st.K] = ks
 	}
 	in.vars = append(in.vars, st.V)
-	if len(st.Elems) > 0 {
-		in.known[st.V] = st.Elems
+	if vknown && len(vcands) > 0 {
+		in.known[st.V] = vcands
 	}
 	st.Body = g.block(in, depth+1, 4, st.Silent)
 	return st
 }
 
 func c08Random(cfg Config, rep *Report, r *Rng) {
-	all := append(append([]string{}, c08OrderedKinds...), c08MapKinds...)
+	all := append(append(append([]string{}, c08OrderedKinds...), c08MapKinds...), c08MoreKinds...)
 	total := cfg.N(25000, 400000)
 	for i := 0; i < total && !rep.Full(); i++ {
 		kind := Pick(r, all)
@@ -817,8 +1136,8 @@ func c08Random(cfg Config, rep *Report, r *Rng) {
 			n = r.Intn(3) // small cases first: the report keeps the shortest failing case per family
 		}
 		name := c08Name(kind, n)
-		if kind == "range" {
-			name = fmt.Sprintf("range:%d:%d", n, r.Range(1, 5))
+		if kind == "range" || kind == "between" {
+			name = fmt.Sprintf("%s:%d:%d", kind, n, r.Range(1, 5))
 		}
 		it, err := c08MakeIterable(name)
 		if err != nil {
@@ -828,7 +1147,7 @@ func c08Random(cfg Config, rep *Report, r *Rng) {
 		style := Pick(r, []string{"tags", "tags", "merged", "merged", "onetag"})
 		g.onetag = style == "onetag"
 		bd := &c08Build{It: name, V: "v", Style: style, Sep: Pick(r, []string{"\n", " ", "\n  "}),
-			Merge: r.Next() | 1, Tail: r.Intn(4), Pre: r.Intn(3)}
+			Merge: r.Next() | 1, Tail: r.Intn(4), Pre: r.Intn(3), Again: r.Chance(20)}
 		sc := &c08Scope{known: map[string][]c08Lit{}}
 		if r.Chance(80) {
 			bd.K = "k"
@@ -917,6 +1236,24 @@ func c08Variants(body []*c08Stmt) [][]*c08Stmt {
 				c.Body = v
 				out = append(out, repl(i, []*c08Stmt{&c}))
 			}
+			if len(s.Args) > 1 { // fewer calls
+				c := *s
+				c.Args = s.Args[:len(s.Args)-1]
+				out = append(out, repl(i, []*c08Stmt{&c}))
+				c2 := *s
+				c2.Args = s.Args[1:]
+				out = append(out, repl(i, []*c08Stmt{&c2}))
+			}
+			if s.Via != "" { // the literal in place
+				c := *s
+				c.Via = ""
+				out = append(out, repl(i, []*c08Stmt{&c}))
+			}
+			if s.Dyn == "arr" && len(s.EX) > 1 { // fewer elements
+				c := *s
+				c.EX = s.EX[:len(s.EX)-1]
+				out = append(out, repl(i, []*c08Stmt{&c}))
+			}
 		}
 	}
 	return out
@@ -964,6 +1301,24 @@ func c08Valid(body []*c08Stmt, def map[string]bool) bool {
 			}
 		case "for":
 			in := cp()
+			if s.Fn != "" { // a loop in a function mentions its parameter only
+				for _, a := range s.Args {
+					if a.Var != "" && !def[a.Var] {
+						return false
+					}
+				}
+				in = map[string]bool{s.P: true}
+			}
+			if s.Dyn != "" {
+				for _, x := range s.EX {
+					if x.Var != "" && !in[x.Var] {
+						return false
+					}
+				}
+			}
+			if s.Via != "" {
+				def[s.Via] = true
+			}
 			in[s.K], in[s.V] = true, true
 			if !c08Valid(s.Body, in) {
 				return false
@@ -975,6 +1330,14 @@ func c08Valid(body []*c08Stmt, def map[string]bool) bool {
 
 func c08RunBuild(rep *Report, bd *c08Build) {
 	cs, it, v := c08Try(bd)
+	var ft c08Feat
+	c08Scan(bd.Body, &ft, 0, false, false)
+	if ft.dyn {
+		rep.Tag("inner:iterable-from-enclosing-variables")
+	}
+	if ft.fnloop {
+		rep.Tag("inner:loop-in-fn-called-repeatedly")
+	}
 	if v.Kind == "" || rep.Dist["shrunk"] >= 300 {
 		c08Record(rep, cs, it, v)
 		return
